@@ -30,6 +30,7 @@ RULE = ('random square CSR (n<=8; empty rows, missing and zero diagonals, unsort
         'off-diagonal entry and the sweep changes x; distinct = distinct (kind, options, input bytes).')
 RULE += (' '
          'Every public call sees a fresh copy of the matrix, half of them with column indices stored in shuffled order; zero initial guess combined with 2-3 iterations every fifth round.')
+THOROUGH_ROUNDS = 3
 TRUSTED = ['pinv_array / LAPACK gelss for block inverses (contract: pseudo-inverse of the diagonal block)',
            'SciPy tobsr/tocsr conversions, get_diagonal']
 PARTIAL = ['block, jacobi_ne, Schwarz and polynomial variants: model correspondence + oracle, no row-equation theorem yet',
